@@ -8,6 +8,12 @@ two chunks of the record write with the cut at a chosen byte offset (torn record
 two crashes per run (the second victim may die during the stale-lock takeover).  Survivors
 go on, a late opener joins after the crash.
 
+In the grpc(...) deployments the writer that dies is the *proxy server process*: it is
+killed at the chosen system call / SQL statement while serving the victim client's call,
+every request in flight fails UNAVAILABLE (ambiguous), a supervisor restarts the server
+after a delay (stale journal lock of the dead server included), clients whose connection is
+refused wait and re-send; client-side caches of the proxies live through the restart.
+
 Oracle: the history of all acknowledged calls, the interrupted call as an *ambiguous*
 operation (wholly applied or wholly absent, nothing else), the survivors' later calls and
 the final reads of every survivor and of a fresh opener must be linearizable against the
@@ -28,19 +34,19 @@ from simkit.model import cf
 ID = "C05"
 LEVEL = "fault_enumeration"
 BUDGET = {"quick": 50, "thorough": 900}
-DEPLOYMENTS = [("jf-sym", 3.0), ("jf-open", 3.0), ("rdb", 1.0), ("cached", 1.0)]
+DEPLOYMENTS = [("jf-sym", 3.0), ("jf-open", 3.0), ("rdb", 1.0), ("cached", 1.0), ("grpc(jf-sym)", 1.0), ("grpc(jf-open)", 0.7), ("grpc(rdb)", 0.5), ("grpc(cached)", 0.3)]
 FS_KINDS = ["fs.symlink", "fs.open_excl", "fs.open", "fs.write", "fs.fsync", "fs.rename", "fs.unlink", "fs.stat", "fs.read", "fs.exists", "fs.lseek", "fs.truncate"]
 SQL_KINDS = ["sql.exec", "sql.commit"]
 
 EVIDENCE = {
-    "rule": "one case = one simulated execution with 1-2 injected process crashes (victim, storage call, syscall kind and occurrence, optional tear offset) placed by stratified seeded sampling, followed by survivor and late-opener continuations; non-trivial = a crash actually fired inside a storage call; distinct = distinct (event-order digest). The per-kind fired counters are in faults_and_probes_fired (crash@<kind>, torn_write@<class>).",
+    "rule": "one case = one simulated execution with 1-2 injected process crashes (victim, storage call, syscall kind and occurrence, optional tear offset) placed by stratified seeded sampling, followed by survivor and late-opener continuations; in the grpc(...) deployments the process that dies is the proxy server (while serving the victim's call), restarted by a supervisor after 0-4 s; non-trivial = a crash actually fired inside a storage call; distinct = distinct (event-order digest). The per-kind fired counters are in faults_and_probes_fired (crash@<kind>, torn_write@<class>).",
     "assumptions": [
         "process death, not power loss: bytes already handed to write() stay, un-flushed buffers vanish, SQLite connections of the victim are rolled back (what the next opener's hot-journal recovery does)",
         "a killed process's remaining Python unwinding cannot touch shared state: every seam call of a zombie raises without effect",
         "stratified sampling of (call, syscall kind, occurrence, cut offset), not exhaustive enumeration; continuation scripts are sampled",
         "MySQL/PostgreSQL not installed; journal Redis backend not covered by the property",
     ],
-    "components": {"real": "JournalStorage + JournalFileBackend + both lock classes, RDBStorage, _CachedStorage, SQLAlchemy, sqlite3 engine", "stub": "file system (SimFS), process death, clocks, uuid, SQLite busy handler, OS scheduler"},
+    "components": {"real": "JournalStorage + JournalFileBackend + both lock classes, RDBStorage, _CachedStorage, SQLAlchemy, sqlite3 engine; GrpcStorageProxy + its client cache, generated stub, OptunaStorageProxyService and protobuf conversion in the grpc(...) deployments", "stub": "file system (SimFS), process death, clocks, uuid, SQLite busy handler, OS scheduler; gRPC transport and server thread pool (SimNet), process supervisor"},
 }
 
 
@@ -55,7 +61,7 @@ def gen_plan(seed: int, run: int, tier: str) -> dict:
     rng = common.rng_for(seed, run, "work")
     frng = common.rng_for(seed, run, "fault")
     kind = common.weighted(rng, deployments())
-    journal = kind.startswith("jf")
+    journal = "jf" in kind
     names = ["a", "b", "c"][: rng.choice([2, 2, 3])]
     g = gen.OpGen(rng, client="", deletes=False)
     nobj = 1
@@ -133,6 +139,9 @@ def gen_plan(seed: int, run: int, tier: str) -> dict:
         "grace_period": rng.choice([3, 5, 10, 30]),
         "busy_timeout": 60.0,
     }
+    if kind.startswith("grpc("):
+        cfg["pool"] = rng.choice([1, 2, 4])
+        cfg["restart_delay"] = rng.choice([0.0, 0.5, 4.0])
     if big_records:
         cfg["read_block"] = rng.choice([512, 8192])
     return {"check": ID, "seed": seed, "run": run, "cfg": cfg, "setup": setup, "tasks": tasks, "faults": faults, "sched": {"seed": rng.getrandbits(48)}}
@@ -187,7 +196,8 @@ def _tear_cut(f: dict, n: int, data_hint: bytes | None = None) -> int:
 def _run(plan: dict, sim: sched.Sim, ch: sched.Chooser, dep: deploy.Deployment) -> dict:
     cfg = plan["cfg"]
     kind = cfg["deployment"]
-    journal = kind.startswith("jf")
+    journal = "jf" in kind
+    proxied = dep.server is not None
     m = model.ModelStorage()
     env = linearize.EnvState()
     prefix = "%s|%s|" % (ID, kind)
@@ -215,6 +225,12 @@ def _run(plan: dict, sim: sched.Sim, ch: sched.Chooser, dep: deploy.Deployment) 
 
     def fault_hook(task: Any, skind: str, detail: str) -> None:
         name = task.name
+        if proxied:
+            # the server process is the writer that dies, while it serves the victim's call
+            serving = getattr(task, "serving", None)
+            if serving is None or task.proc is not dep.server.proc:
+                return
+            name = serving[0]
         if name not in cur_op:
             return
         for f in faults:
@@ -236,17 +252,23 @@ def _run(plan: dict, sim: sched.Sim, ch: sched.Chooser, dep: deploy.Deployment) 
             sim.count("crash@" + skind)
             if "tear" in f:
                 sim.count("torn_write@" + f["tear"])
-            sim.crash(task.proc)
+            if proxied:
+                dep.server.crash()
+            else:
+                sim.crash(task.proc)
             return
 
     sim.fault_hook = fault_hook
     if dep.fs is not None:
 
         def chunker(task: Any, n: int) -> list[int]:
-            if task is None or task.name not in cur_op:
+            tname = task.name if task is not None else None
+            if proxied and task is not None:
+                tname = (getattr(task, "serving", None) or (None,))[0]
+            if tname is None or tname not in cur_op:
                 return [n]
             for f in faults:
-                if "tear" in f and not f.get("fired") and f["victim"] == task.name and f["op_index"] == cur_op[task.name] and n > 1:
+                if "tear" in f and not f.get("fired") and f["victim"] == tname and f["op_index"] == cur_op[tname] and n > 1:
                     cut = _tear_cut(f, n)
                     return [cut, n - cut]
             return [n]
@@ -284,10 +306,33 @@ def _run(plan: dict, sim: sched.Sim, ch: sched.Chooser, dep: deploy.Deployment) 
         lock.release = release
 
     def _task_dead(name: str) -> bool:
-        for tk in tasks:
+        for tk in list(tasks) + [x for p_ in sim.procs for x in p_.tasks]:
             if tk.name == name:
                 return tk.proc.dead
         return False
+
+    if proxied:
+        if journal:
+            dep.server.on_start.append(lambda: _watch_lock(dep.server.inner._backend._lock))
+            _watch_lock(dep.server.inner._backend._lock)
+
+        def supervisor() -> None:
+            # restarts the server process whenever it has died (systemd, k8s, a shell loop)
+            while True:
+                sim.block_until(lambda: dep.server.down, "supervisor")
+                if cfg.get("restart_delay"):
+                    sim.sleep(cfg["restart_delay"])
+                try:
+                    dep.server.start()
+                    sim.count("server_restarted")
+                except sched.SimKilled:
+                    raise
+                except Exception as e:  # noqa
+                    verdict.append((prefix + "opener-raised|" + type(e).__name__, "the restarted server could not open the storage: %r" % (e,)))
+                    return
+
+        sup = sim.spawn(sim.proc("SUP"), "supervisor", supervisor)
+        sup.daemon = True
 
     def make_task(name: str, t: dict) -> Any:
         def body() -> None:
@@ -300,7 +345,7 @@ def _run(plan: dict, sim: sched.Sim, ch: sched.Chooser, dep: deploy.Deployment) 
             except Exception as e:  # noqa
                 verdict.append((prefix + "opener-raised|" + type(e).__name__, "%s could not open the storage: %r" % (name, e)))
                 return
-            if journal:
+            if journal and not proxied:
                 _watch_lock(st._backend._lock)
             for i, op in enumerate(t["ops"]):
                 cur_op[name] = i
@@ -311,8 +356,23 @@ def _run(plan: dict, sim: sched.Sim, ch: sched.Chooser, dep: deploy.Deployment) 
                 sim.note("inv", name, op["op"])
                 try:
                     res = ops.apply_real(st, op, env)
+                    while proxied and res[0] == "err" and res[1] == "SimRpcError" and "server down" in res[2]:
+                        # connection refused: nothing was sent; wait for the server and re-send
+                        sim.count("client_waited_for_restart")
+                        sim.block_until(lambda: not dep.server.down or bool(verdict), "reconnect")
+                        if verdict:
+                            return
+                        res = ops.apply_real(st, op, env)
                 except sched.SimKilled:
                     raise  # the interrupted call stays in the history as ambiguous (ret None)
+                if proxied and res[0] == "err" and res[1] == "SimRpcError" and "server died" in res[2]:
+                    # in flight when the server died: executed or not, the client cannot know
+                    sim.count("rpc_in_flight_at_crash")
+                    sim.note("ambiguous", name, op["op"])
+                    if op["op"].startswith("get_"):
+                        history.remove(h)
+                    durations.append((name, sim.now - t0, len(crashes)))
+                    continue
                 if res[0] == "skip":
                     history.remove(h)
                     continue
@@ -362,11 +422,16 @@ def _run(plan: dict, sim: sched.Sim, ch: sched.Chooser, dep: deploy.Deployment) 
     # bounded liveness
     grace = cfg["grace_period"] if journal else 0
     for name, d, ncr in durations:
-        bound = ncr * (grace + 1) + 5
+        bound = ncr * (grace + 1 + float(cfg.get("restart_delay", 0.0))) + 5
         if d > bound:
             return common.result(sim, ch, "violation", prefix + "slow-recovery", "%s: a call took %.3f simulated seconds (bound %d) after crashes %r" % (name, d, bound, crashes), nontrivial=fired > 0)
     # final reads: every survivor's own storage object, then a fresh opener
     seams.set_sim(sim, dep.fs)
+    if proxied and dep.server.down:
+        try:
+            dep.server.start()  # the run ended before the supervisor's restart
+        except Exception as e:  # noqa
+            return common.result(sim, ch, "violation", prefix + "opener-raised|" + type(e).__name__, "the restarted server could not open the storage: %r after crashes %r" % (e, crashes), nontrivial=fired > 0)
     studies = sorted(h for h in env.real if "S" in h and "T" not in h)
     trials = sorted(h for h in env.real if "T" in h)
     readers: list[tuple[str, Any]] = []
